@@ -1,6 +1,6 @@
 (* C16 — property theorems only (proved in C16/Proofs*.v), instantiated with the constants
    re-extracted from the headers on this run (gen/Params_C16.v). *)
-From MV Require Import C16.Model C16.ProofsSeq C16.ProofsSync C16.ProofsAsync C16.ProofsAcct gen.Params_C16.
+From MV Require Import C16.Model C16.ProofsSeq C16.ProofsSync C16.ProofsAsync C16.ProofsAcct C16.ProofsFair gen.Params_C16.
 Local Open Scope Z_scope.
 
 (* side condition on the extracted constant: the buffer has room for one byte and the NUL *)
@@ -149,7 +149,8 @@ Print Assumptions async_no_leak_on_full.
 (* Known finding async-capacity-unusable (DESIGN.md 3.2).  in_known_class A = (usable capacity
    of the channel is 0), i.e. channel_capacity <= 2.
    FULL STATEMENT: destroy returns (under a fair scheduler) for every configuration.
-   Proved outside the class (safety core; termination under fairness is not formalised):
+   Outside the class that is proved in full: async_destroy_returns_fair below.  This theorem
+   is its safety core:
    whenever the sentinel is about to be refused there are messages for the writer thread to
    take, the writer thread has not exited and is not asleep without a wake-up on its way —
    so every refusal leaves a productive step of another thread; and a concrete configuration
@@ -202,3 +203,40 @@ Theorem async_leak_and_hang_before_repair :
   (forall t ch, astep false ex_ascen s t ch = None).
 Proof. exact unrepaired_witness. Qed.
 Print Assumptions async_leak_and_hang_before_repair.
+
+(* Outside the known class (usable capacity >= 1), at least one producer, repaired code: at any
+   point [pre] of any schedule, every FAIR continuation (a sequence of rounds, each scheduling
+   the writer thread 0 and every producer 1..n at least once, in any order, any number of times)
+   of more than G rounds ends with destroy returned.  G is the explicit measure of
+   C16/ProofsFair.v (remaining calls and position of every producer, queue length, position of
+   the writer thread): no step increases it, every enabled step decreases it except the
+   destroying thread's retry of the sentinel against a full queue, and a productive thread
+   exists until destroy has returned. *)
+Theorem async_destroy_returns_fair : forall A pre rounds,
+  in_known_class A = false -> (1 <= as_n A)%nat ->
+  let s := exec asys (astep true A) (ainit A) pre in
+  Forall (fair_round A) rounds -> (G A s < length rounds)%nat ->
+  a_destroyed (exec asys (astep true A) (ainit A) (pre ++ concat rounds)) = true.
+Proof. exact destroy_returns_fair. Qed.
+Print Assumptions async_destroy_returns_fair.
+
+(* from the initial state the bound is n * (msgs * Wc + Dc) + 8  (cw A 0 = msgs * Wc) *)
+Theorem async_destroy_fair_bound : forall A,
+  (G A (ainit A) <= as_n A * (cw A 0 + Dc A) + 8)%nat.
+Proof. exact G_init_le. Qed.
+Print Assumptions async_destroy_fair_bound.
+
+(* The property's clause in full outside the known class: under every fair schedule destroy
+   returns; it returns only after everything the channel accepted has been written (whole, in
+   queue order, on every accepting handler); and nothing is outstanding even when the queue
+   overflowed (refused messages are released by their producers). *)
+Theorem async_destroy_clause_in_full : forall A pre rounds,
+  in_known_class A = false -> (1 <= as_n A)%nat ->
+  Forall (fair_round A) rounds ->
+  (G A (exec asys (astep true A) (ainit A) pre) < length rounds)%nat ->
+  let s' := exec asys (astep true A) (ainit A) (pre ++ concat rounds) in
+  a_destroyed s' = true /\ a_queue s' = [] /\ a_consumed s' = a_accepted s' /\
+  (forall i, whole (a_out s' i) /\ lines_of (a_out s' i) = filter (macc A i) (a_accepted s')) /\
+  a_live s' = 0%nat.
+Proof. exact destroy_returns_drained_and_clean. Qed.
+Print Assumptions async_destroy_clause_in_full.
